@@ -10,6 +10,7 @@
 #include <complex>
 #include <cstring>
 #include <limits>
+#include <ostream>
 #include <type_traits>
 
 #include <dune/common/float_cmp.hh>
@@ -40,24 +41,41 @@ inline double rnd(double x) {
   if (mag > 240.0) mag = std::numeric_limits<double>::infinity();
   return std::copysign(mag, x);
 }
+// MF8 is a complete arithmetic type (construction from / explicit conversion to every arithmetic type, + - * /,
+// compound assignment, comparisons, abs, classification, std::numeric_limits) so that it keeps compiling whatever
+// operations of T float_cmp.cc uses: a harness that no longer compiles cannot produce a failing input.
 struct MF8 {
   double v;
-  MF8() : v(0) {}
-  MF8(int i) : v(rnd((double)i)) {}
-  MF8(long i) : v(rnd((double)i)) {}
+  constexpr MF8() : v(0) {}
+  template <class A, std::enable_if_t<std::is_arithmetic<A>::value, int> = 0>
+  MF8(A a) : v(rnd((double)a)) {}
   struct Raw {};
-  MF8(double d, Raw) : v(d) {}
-  explicit operator int() const { return (int)v; }
-  explicit operator long() const { return (long)v; }
+  constexpr MF8(double d, Raw) : v(d) {}
+  template <class A, std::enable_if_t<std::is_arithmetic<A>::value, int> = 0>
+  explicit operator A() const { return (A)v; }
 };
 inline MF8 operator-(MF8 a, MF8 b) { return MF8(rnd(a.v - b.v), MF8::Raw{}); }
+inline MF8 operator+(MF8 a, MF8 b) { return MF8(rnd(a.v + b.v), MF8::Raw{}); }
 inline MF8 operator-(MF8 a) { return MF8(-a.v, MF8::Raw{}); }
+inline MF8 operator+(MF8 a) { return a; }
 inline MF8 operator*(MF8 a, MF8 b) { return MF8(rnd(a.v * b.v), MF8::Raw{}); }
+inline MF8 operator/(MF8 a, MF8 b) { return MF8(rnd(a.v / b.v), MF8::Raw{}); }
+inline MF8& operator+=(MF8& a, MF8 b) { return a = a + b; }
+inline MF8& operator-=(MF8& a, MF8 b) { return a = a - b; }
+inline MF8& operator*=(MF8& a, MF8 b) { return a = a * b; }
+inline MF8& operator/=(MF8& a, MF8 b) { return a = a / b; }
 inline bool operator<(MF8 a, MF8 b) { return a.v < b.v; }
 inline bool operator>(MF8 a, MF8 b) { return a.v > b.v; }
 inline bool operator<=(MF8 a, MF8 b) { return a.v <= b.v; }
 inline bool operator>=(MF8 a, MF8 b) { return a.v >= b.v; }
+inline bool operator==(MF8 a, MF8 b) { return a.v == b.v; }
+inline bool operator!=(MF8 a, MF8 b) { return a.v != b.v; }
 inline MF8 abs(MF8 a) { return MF8(std::fabs(a.v), MF8::Raw{}); }
+inline MF8 fabs(MF8 a) { return abs(a); }
+inline bool isnan(MF8 a) { return std::isnan(a.v); }
+inline bool isinf(MF8 a) { return std::isinf(a.v); }
+inline bool isfinite(MF8 a) { return std::isfinite(a.v); }
+inline std::ostream& operator<<(std::ostream& os, MF8 a) { return os << a.v; }
 inline MF8 decode(unsigned code) {
   bool neg = (code >> 7) & 1;
   unsigned e = (code >> 3) & 15, m = code & 7;
@@ -69,6 +87,26 @@ inline MF8 decode(unsigned code) {
 }
 inline bool finiteCode(unsigned c) { return c < 256 && ((c >> 3) & 15) != 15; }
 }  // namespace mf
+namespace std {
+template <> struct numeric_limits<mf::MF8> {
+  static constexpr bool is_specialized = true, is_signed = true, is_integer = false, is_exact = false, has_infinity = true,
+                        has_quiet_NaN = true, has_signaling_NaN = false, is_iec559 = false, is_bounded = true, is_modulo = false,
+                        traps = false, tinyness_before = false, has_denorm_loss = false;
+  static constexpr float_denorm_style has_denorm = denorm_present;
+  static constexpr float_round_style round_style = round_to_nearest;
+  static constexpr int digits = 4, digits10 = 0, max_digits10 = 3, radix = 2, min_exponent = -5, min_exponent10 = -1, max_exponent = 8,
+                       max_exponent10 = 2;
+  static constexpr mf::MF8 min() { return mf::MF8(0.015625, mf::MF8::Raw{}); }        // 2^-6
+  static constexpr mf::MF8 max() { return mf::MF8(240.0, mf::MF8::Raw{}); }
+  static constexpr mf::MF8 lowest() { return mf::MF8(-240.0, mf::MF8::Raw{}); }
+  static constexpr mf::MF8 epsilon() { return mf::MF8(0.125, mf::MF8::Raw{}); }       // 2^-3
+  static constexpr mf::MF8 round_error() { return mf::MF8(0.5, mf::MF8::Raw{}); }
+  static constexpr mf::MF8 denorm_min() { return mf::MF8(0.001953125, mf::MF8::Raw{}); }  // 2^-9
+  static mf::MF8 infinity() { return mf::MF8(numeric_limits<double>::infinity(), mf::MF8::Raw{}); }
+  static mf::MF8 quiet_NaN() { return mf::MF8(numeric_limits<double>::quiet_NaN(), mf::MF8::Raw{}); }
+  static mf::MF8 signaling_NaN() { return quiet_NaN(); }
+};
+}  // namespace std
 
 // ------------------------------------------------------------------------------------------------
 // exact dyadics
@@ -103,19 +141,48 @@ static mpq_class toQ(const Dy& d) {
   else q /= mpq_class(mpz_class(1) << (-d.e));
   return q;
 }
-template <class T> T toT(const Dy& d) { return std::ldexp((T)d.m.get_d(), (int)d.e); }
-template <class T> mpq_class qOf(T x) { return mpq_class((double)x); }  // exact: float/double only
+static mpq_class pow2q(long e) {
+  if (e >= 0) return mpq_class(mpz_class(1) << e);
+  return mpq_class(1) / mpq_class(mpz_class(1) << (-e));
+}
+template <class T> struct FTr;
+template <> struct FTr<float> { static constexpr const char* name = "f32"; };
+template <> struct FTr<double> { static constexpr const char* name = "f64"; };
+template <> struct FTr<long double> { static constexpr const char* name = "f80"; };
+// exact rational value of a finite float / double / long double
+template <class T> mpq_class qOf(T x) {
+  if (x == 0) return 0;
+  int ex;
+  T f = std::frexp(x, &ex);      // |f| in [1/2, 1)
+  T m = std::ldexp(f, 64);       // an integer below 2^64 in magnitude, exact
+  bool neg = m < 0;
+  if (neg) m = -m;
+  unsigned long u = (unsigned long)m;
+  mpz_class z;
+  mpz_set_ui(z.get_mpz_t(), u);
+  mpq_class q(z);
+  q *= pow2q((long)ex - 64);
+  return neg ? mpq_class(-q) : q;
+}
+// the value m * 2^e in T (rounded by the conversion if it is not a value of T: see representable)
+template <class T> T toT(const Dy& d) {
+  mpz_class a = abs(d.m);
+  if (bitlen(a) > 64) return std::numeric_limits<T>::quiet_NaN();
+  unsigned long u = mpz_get_ui(a.get_mpz_t());
+  T x = std::ldexp((T)u, (int)d.e);
+  return d.m < 0 ? -x : x;
+}
+template <class T> bool representable(const Dy& d) {
+  if (d.e < -40000 || d.e > 40000) return false;
+  T x = toT<T>(d);
+  return std::isfinite(x) && qOf<T>(x) == toQ(d);
+}
 // exact dyadic string of a finite floating value
 template <class T> std::string dyStr(T x) {
-  if (x == 0) return "0:0";
-  int ex;
-  double f = std::frexp((double)x, &ex);  // exact
-  double mant = std::ldexp(f, 53);
-  mpz_class m;
-  mpz_set_d(m.get_mpz_t(), mant);
+  mpq_class q = qOf<T>(x);
   Dy d;
-  d.m = m;
-  d.e = ex - 53;
+  d.m = q.get_num();
+  d.e = -(bitlen(q.get_den()) - 1);
   normalise(d);
   return d.m.get_str(10) + ":" + std::to_string(d.e);
 }
@@ -210,19 +277,25 @@ template <class T> Result execCmp(int style, const Dy& da, const Dy& db, const D
     res.oracle = "FAIL harness: operands promised exact are not";
     return res;
   }
-  Six r{}, sw{}, viaOps{};
+  Six r{}, sw{}, viaOps{}, viaSet{};
+  bool getterOk = true;
   withStyle(style, [&](auto S) {
     constexpr FC::CmpStyle cs = CS[decltype(S)::value];
     r = sixOf<T, cs>(a, b, eps);
     sw = sixOf<T, cs>(b, a, eps);
     Dune::FloatCmpOps<T, cs> ops(eps);
     viaOps = Six{ops.eq(a, b), ops.ne(a, b), ops.lt(a, b), ops.gt(a, b), ops.le(a, b), ops.ge(a, b)};
+    Dune::FloatCmpOps<T, cs> ops2;  // default epsilon, then set
+    ops2.epsilon(eps);
+    viaSet = Six{ops2.eq(a, b), ops2.ne(a, b), ops2.lt(a, b), ops2.gt(a, b), ops2.le(a, b), ops2.ge(a, b)};
+    getterOk = ops.epsilon() == eps && ops2.epsilon() == eps;
     return 0;
   });
   res.impl = r.str();
   Six doc = sixDoc(style, A, B, E);
   if (!(r == doc)) res.oracle = "FAIL differs from the documented definition: expected " + doc.str();
   else if (!(viaOps == r)) res.oracle = "FAIL FloatCmpOps members differ from the free functions: " + viaOps.str();
+  else if (!(viaSet == r) || !getterOk) res.oracle = "FAIL FloatCmpOps::epsilon(e) / epsilon() do not set / return the epsilon in use";
   else {
     std::string l = lawCheck(r, sw);
     if (!l.empty()) res.oracle = "FAIL " + l;
@@ -232,6 +305,16 @@ template <class T> Result execCmp(int style, const Dy& da, const Dy& db, const D
     if (!(d == r)) res.oracle = "FAIL default-style overloads differ from relativeWeak";
   }
   stat(std::string("cmp_eq_") + (r.eq ? "true" : "false"));
+  {  // how close to the threshold of the documented definition was this case?
+    mpq_class aa = abs(A), ab = abs(B), D = abs(A - B);
+    mpq_class tolq = style == 2 ? E : E * (style == 0 ? (aa < ab ? ab : aa) : (aa < ab ? aa : ab));
+    if (D == tolq) stat(D == 0 ? "cmp_at_threshold_zero" : "cmp_at_threshold");
+    else if (abs(D - tolq) * 1024 <= tolq) stat("cmp_near_threshold");
+    if (E >= 1) stat("cmp_eps_ge_1");
+    if (E == 0) stat("cmp_eps_zero");
+    if ((A < 0) != (B < 0)) stat("cmp_opposite_signs");
+    if (A == 0 || B == 0) stat("cmp_with_zero");
+  }
   return res;
 }
 
@@ -389,55 +472,418 @@ static std::string truncLaws(int style, int rstyle, bool uns, const mpq_class& x
   return "";
 }
 
-template <class T, class I> Result execRT(bool isRound, int style, int rstyle, const Dy& dv_, const Dy& de) {
-  Result res;
-  T val = toT<T>(dv_), eps = toT<T>(de);
-  mpq_class X = toQ(dv_), E = toQ(de);
-  I r = 0, viaOps = 0;
+// the largest value of an integer type
+template <class I> mpz_class maxOfI() { return mpz_class(std::to_string(std::numeric_limits<I>::max())); }
+// result of an unsigned computation read as the integer it stands for: for an argument in (-1,0) the integer below
+// is -1, which an unsigned type holds as its largest value (well-defined wrap-around)
+template <class I> mpz_class resultZ(I r, const mpq_class& x) {
+  mpz_class R(std::to_string(r));
+  if (!std::numeric_limits<I>::is_signed && x < 0 && R == maxOfI<I>()) R = -1;
+  return R;
+}
+// which branch of the rounding algorithm does the (exact) argument take?  counters only
+static void rtBranchStats(bool isRound, int style, const mpq_class& x, const mpq_class& eps) {
+  mpz_class l;
+  mpz_fdiv_q(l.get_mpz_t(), x.get_num_mpz_t(), x.get_den_mpz_t());
+  mpz_class t;
+  mpz_tdiv_q(t.get_mpz_t(), x.get_num_mpz_t(), x.get_den_mpz_t());
+  if (mpq_class(l) == x) { stat(isRound ? "round_arg_integer" : "trunc_arg_integer"); }
+  if (isRound) {
+    if (eqDoc(style, mpq_class(t), x, eps)) { stat("round_branch_equals_integer_part"); return; }
+    mpq_class pp = x - l, qq = l + 1 - x;
+    if (eqDoc(style, pp, qq, eps)) stat(pp == qq ? "round_branch_exact_tie" : "round_branch_tie_within_eps");
+    else stat("round_branch_nearest");
+  } else {
+    bool eqL = eqDoc(style, mpq_class(l), x, eps), eqU = eqDoc(style, mpq_class(l + 1), x, eps);
+    if (eqU) stat("trunc_branch_snap_up");
+    else if (eqL) stat("trunc_branch_near_below");
+    else stat("trunc_branch_plain");
+  }
+}
+
+// calls round / trunc through every overload that applies and through FloatCmpOps; `dflt` = the epsilon argument is omitted
+template <class T, class I, FC::CmpStyle cs, FC::RoundingStyle rs>
+I callRT(bool isRound, bool dflt, const T& val, T eps, std::string& ovl) {
+  I r;
+  auto same = [&](I other, const char* what) { if (other != r && ovl.empty()) ovl = what; };
+  if (dflt) {
+    r = isRound ? FC::round<I, T, cs, rs>(val) : FC::trunc<I, T, cs, rs>(val);
+    Dune::FloatCmpOps<T, cs, rs> ops;
+    same(isRound ? ops.template round<I>(val) : ops.template trunc<I>(val), "default-constructed FloatCmpOps member differs from the free function");
+    if (!(ops.epsilon() == eps)) ovl = "default-constructed FloatCmpOps does not hold the default epsilon";
+    if constexpr (cs == FC::defaultCmpStyle)
+      same(isRound ? FC::round<I, T, rs>(val) : FC::trunc<I, T, rs>(val), "overload without comparison style differs (default epsilon)");
+    if constexpr (rs == FC::defaultRoundingStyle)
+      same(isRound ? FC::round<I, T, cs>(val) : FC::trunc<I, T, cs>(val), "overload without rounding style differs (default epsilon)");
+    if constexpr (cs == FC::defaultCmpStyle && rs == FC::defaultRoundingStyle)
+      same(isRound ? FC::round<I, T>(val) : FC::trunc<I, T>(val), "overload without styles differs (default epsilon)");
+  } else {
+    r = isRound ? FC::round<I, T, cs, rs>(val, eps) : FC::trunc<I, T, cs, rs>(val, eps);
+    Dune::FloatCmpOps<T, cs, rs> ops(eps);
+    same(isRound ? ops.template round<I>(val) : ops.template trunc<I>(val), "FloatCmpOps member differs from the free function");
+    Dune::FloatCmpOps<T, cs, rs> ops2;
+    ops2.epsilon(eps);
+    same(isRound ? ops2.template round<I>(val) : ops2.template trunc<I>(val), "FloatCmpOps::epsilon(e) does not set the epsilon in use");
+    if constexpr (cs == FC::defaultCmpStyle)
+      same(isRound ? FC::round<I, T, rs>(val, eps) : FC::trunc<I, T, rs>(val, eps), "overload without comparison style differs");
+    if constexpr (rs == FC::defaultRoundingStyle)
+      same(isRound ? FC::round<I, T, cs>(val, eps) : FC::trunc<I, T, cs>(val, eps), "overload without rounding style differs");
+    if constexpr (cs == FC::defaultCmpStyle && rs == FC::defaultRoundingStyle)
+      same(isRound ? FC::round<I, T>(val, eps) : FC::trunc<I, T>(val, eps), "overload without styles differs");
+  }
+  return r;
+}
+template <class T, class I> I callRTdyn(bool isRound, int style, int rstyle, bool dflt, const T& val, T eps, std::string& ovl) {
+  I r = 0;
   withStyle(style, [&](auto S) {
     constexpr FC::CmpStyle cs = CS[decltype(S)::value];
     return withRStyle(rstyle, [&](auto R) {
       constexpr FC::RoundingStyle rs = RS[decltype(R)::value];
-      Dune::FloatCmpOps<T, cs, rs> ops(eps);
-      if (isRound) { r = FC::round<I, T, cs, rs>(val, eps); viaOps = ops.template round<I>(val); }
-      else { r = FC::trunc<I, T, cs, rs>(val, eps); viaOps = ops.template trunc<I>(val); }
+      r = callRT<T, I, cs, rs>(isRound, dflt, val, eps, ovl);
       return 0;
     });
   });
+  return r;
+}
+
+template <class T, class I> Result execRT(bool isRound, int style, int rstyle, const Dy& dv_, const Dy& de) {
+  Result res;
+  T val = toT<T>(dv_), eps = toT<T>(de);
+  mpq_class X = toQ(dv_), E = toQ(de);
+  std::string ovl;
+  I r = callRTdyn<T, I>(isRound, style, rstyle, false, val, eps, ovl);
   res.impl = std::to_string(r);
-  mpz_class R(std::to_string(r));
+  mpz_class R = resultZ<I>(r, X);
   std::string l = isRound ? roundLaws(style, rstyle, X, E, R) : truncLaws(style, rstyle, !std::numeric_limits<I>::is_signed, X, E, R);
   if (!l.empty()) res.oracle = "FAIL " + l;
-  else if (viaOps != r) res.oracle = "FAIL FloatCmpOps member differs from the free function";
+  else if (!ovl.empty()) res.oracle = "FAIL " + ovl;
+  else if (R < 0 && !std::numeric_limits<I>::is_signed) res.oracle = "ok trivial";  // the nearest integer is -1: not a value of I
   stat(std::string(isRound ? "round_" : "trunc_") + RSTYLES[rstyle]);
+  rtBranchStats(isRound, style, X, E);
+  return res;
+}
+
+// ------------------------------------------------------------------------------------------------
+// the same operations on ARBITRARY finite values of float / double / long double (op kinds fcmp, fcmpv, fround, ftrunc):
+// the Lean model evaluates them in the rounding arithmetic of the format, so the answers are compared bit for bit;
+// the oracle decides the documented definitions "up to rounding" (three-valued) and the algebraic laws exactly.
+// ------------------------------------------------------------------------------------------------
+struct EpsArg {
+  bool ok = false, dflt = false;
+  Dy d;
+};
+static EpsArg parseEps(const std::string& s) {
+  EpsArg e;
+  if (s == "def") { e.ok = e.dflt = true; return e; }
+  e.d = parseDy(s);
+  e.ok = e.d.ok;
+  return e;
+}
+// documented default epsilon, written down independently of float_cmp.cc
+template <class T> T docDefaultEps(int style) {
+  return style == 2 ? std::max<T>(std::numeric_limits<T>::epsilon(), (T)1e-6) : (T)(std::numeric_limits<T>::epsilon() * 8);
+}
+
+// tolerant equality up to rounding: 1 = true however the operations round, 0 = false however they round, -1 = open.
+// The code compares fl(|a-b|) with fl(eps * max/min(|a|,|b|)): one rounding on each side (relative error below 2^(1-p),
+// absolute error below the smallest subnormal).  absErr: additional absolute uncertainty of a and b themselves.
+template <class T> int eqSlack(int style, const mpq_class& a, const mpq_class& b, const mpq_class& eps, const mpq_class& absErr = 0) {
+  static const mpq_class u = pow2q(2 - std::numeric_limits<T>::digits);
+  static const mpq_class eta = qOf<T>(std::numeric_limits<T>::denorm_min());
+  static const mpq_class big = qOf<T>(std::numeric_limits<T>::max());
+  mpq_class D = abs(a - b), aa = abs(a), ab = abs(b);
+  mpq_class M = style == 0 ? (aa < ab ? ab : aa) : style == 1 ? (aa < ab ? aa : ab) : mpq_class(1);
+  mpq_class TOL = eps * M, tolErr = style == 2 ? mpq_class(0) : mpq_class(eps * absErr);
+  if (D >= big || TOL >= big) return -1;
+  if (D == 0 && absErr == 0) return 1;  // 0 <= eps * anything for eps >= 0
+  mpq_class lo = (TOL - tolErr) * (1 - u) - eta, hi = (TOL + tolErr) * (1 + u) + eta;
+  if (D * (1 + u) + 2 * absErr <= lo) return 1;
+  if (D * (1 - u) - 2 * absErr > hi) return 0;
+  return -1;
+}
+
+template <class T, FC::CmpStyle cs> Six sixDefault(const T& a, const T& b) {
+  return Six{FC::eq<T, cs>(a, b), FC::ne<T, cs>(a, b), FC::lt<T, cs>(a, b), FC::gt<T, cs>(a, b), FC::le<T, cs>(a, b), FC::ge<T, cs>(a, b)};
+}
+
+template <class T> Result execFCmp(int style, const Dy& da, const Dy& db, const EpsArg& ea) {
+  Result res;
+  if (!representable<T>(da) || !representable<T>(db) || (!ea.dflt && (!representable<T>(ea.d) || ea.d.m < 0)))
+    return Result{"bad-op", "FAIL malformed line: operand is not a (non-negative, for epsilon) value of the type"};
+  T a = toT<T>(da), b = toT<T>(db);
+  T eps = ea.dflt ? docDefaultEps<T>(style) : toT<T>(ea.d);
+  mpq_class A = toQ(da), B = toQ(db), E = qOf<T>(eps);
+  Six r{}, sw{}, viaOps{}, viaSet{}, dfl{};
+  bool getterOk = true, defEpsOk = true;
+  withStyle(style, [&](auto S) {
+    constexpr FC::CmpStyle cs = CS[decltype(S)::value];
+    using V = T;
+    if (ea.dflt) {
+      defEpsOk = FC::DefaultEpsilon<T, cs>::value() == eps;
+      r = sixDefault<V, cs>(a, b);
+      sw = sixDefault<V, cs>(b, a);
+      Dune::FloatCmpOps<T, cs> ops;
+      viaOps = Six{ops.eq(a, b), ops.ne(a, b), ops.lt(a, b), ops.gt(a, b), ops.le(a, b), ops.ge(a, b)};
+      getterOk = ops.epsilon() == eps;
+      if constexpr (cs == FC::defaultCmpStyle) dfl = Six{FC::eq(a, b), FC::ne(a, b), FC::lt(a, b), FC::gt(a, b), FC::le(a, b), FC::ge(a, b)};
+    } else {
+      r = sixOf<T, cs>(a, b, eps);
+      sw = sixOf<T, cs>(b, a, eps);
+      Dune::FloatCmpOps<T, cs> ops(eps);
+      viaOps = Six{ops.eq(a, b), ops.ne(a, b), ops.lt(a, b), ops.gt(a, b), ops.le(a, b), ops.ge(a, b)};
+      getterOk = ops.epsilon() == eps;
+      if constexpr (cs == FC::defaultCmpStyle)
+        dfl = Six{FC::eq(a, b, eps), FC::ne(a, b, eps), FC::lt(a, b, eps), FC::gt(a, b, eps), FC::le(a, b, eps), FC::ge(a, b, eps)};
+    }
+    Dune::FloatCmpOps<T, cs> ops2(eps + T(1));
+    ops2.epsilon(eps);
+    viaSet = Six{ops2.eq(a, b), ops2.ne(a, b), ops2.lt(a, b), ops2.gt(a, b), ops2.le(a, b), ops2.ge(a, b)};
+    getterOk = getterOk && ops2.epsilon() == eps;
+    return 0;
+  });
+  res.impl = r.str();
+  int dec = eqSlack<T>(style, A, B, E);
+  stat(dec < 0 ? "fcmp_definition_open_rounding" : dec ? "fcmp_definition_true" : "fcmp_definition_false");
+  if (ea.dflt) stat("fcmp_default_eps");
+  std::string l = lawCheck(r, sw);
+  if (!defEpsOk) res.oracle = "FAIL default epsilon differs from the documented value";
+  else if (dec >= 0 && !(r == Six{dec == 1, dec != 1, dec != 1 && A < B, dec != 1 && A > B, dec == 1 || A < B, dec == 1 || A > B}))
+    res.oracle = std::string("FAIL differs from the documented definition beyond rounding: eq must be ") + (dec ? "true" : "false");
+  else if (!l.empty()) res.oracle = "FAIL " + l;
+  else if (!(viaOps == r)) res.oracle = "FAIL FloatCmpOps members differ from the free functions: " + viaOps.str();
+  else if (!(viaSet == r) || !getterOk) res.oracle = "FAIL FloatCmpOps::epsilon(e) / epsilon() do not set / return the epsilon in use";
+  else if (style == 0 && !(dfl == r)) res.oracle = "FAIL default-style overloads differ from relativeWeak";
+  return res;
+}
+
+template <class T, int n, int st>
+void fvEqF(const std::vector<T>& a, const std::vector<T>& b, bool dflt, T eps, bool& eq, bool& ne, bool& eqsw, bool& opsOk) {
+  using V = Dune::FieldVector<T, n>;
+  V fa, fb;
+  for (int i = 0; i < n; ++i) { fa[i] = a[i]; fb[i] = b[i]; }
+  constexpr FC::CmpStyle cs = CS[st];
+  if (dflt) {
+    eq = FC::eq<V, cs>(fa, fb); ne = FC::ne<V, cs>(fa, fb); eqsw = FC::eq<V, cs>(fb, fa);
+    Dune::FloatCmpOps<V, cs> ops;
+    opsOk = ops.eq(fa, fb) == eq && ops.ne(fa, fb) == ne && ops.epsilon() == eps;
+  } else {
+    eq = FC::eq<V, cs>(fa, fb, eps); ne = FC::ne<V, cs>(fa, fb, eps); eqsw = FC::eq<V, cs>(fb, fa, eps);
+    Dune::FloatCmpOps<V, cs> ops(eps);
+    opsOk = ops.eq(fa, fb) == eq && ops.ne(fa, fb) == ne && ops.epsilon() == eps;
+  }
+}
+
+template <class T> Result execFCmpV(const std::string& kind, int style, const std::vector<Dy>& da, const std::vector<Dy>& db, const EpsArg& ea) {
+  Result res;
+  bool okr = ea.dflt || (representable<T>(ea.d) && ea.d.m >= 0);
+  for (auto& d : da) okr = okr && representable<T>(d);
+  for (auto& d : db) okr = okr && representable<T>(d);
+  if (!okr) return Result{"bad-op", "FAIL malformed line: operand is not a value of the type"};
+  std::vector<T> a, b;
+  std::vector<mpq_class> A, B;
+  for (auto& d : da) { a.push_back(toT<T>(d)); A.push_back(toQ(d)); }
+  for (auto& d : db) { b.push_back(toT<T>(d)); B.push_back(toQ(d)); }
+  T eps = ea.dflt ? docDefaultEps<T>(style) : toT<T>(ea.d);
+  mpq_class E = qOf<T>(eps);
+  // conjunction over the components of the documented scalar definition, three-valued
+  int eqd = A.size() == B.size() ? 1 : 0;
+  for (size_t i = 0; eqd != 0 && i < A.size(); ++i) {
+    int c = eqSlack<T>(style, A[i], B[i], E);
+    if (c == 0) eqd = 0;
+    else if (c < 0) eqd = -1;
+  }
+  if (eqd == -1)  // a component that is certainly unequal decides the conjunction
+    for (size_t i = 0; i < A.size(); ++i) if (eqSlack<T>(style, A[i], B[i], E) == 0) eqd = 0;
+  stat("fcmpv_" + kind + "_n" + std::to_string(a.size()));
+  stat(eqd < 0 ? "fcmpv_definition_open_rounding" : "fcmpv_definition_decided");
+  if (kind == "std") {
+    using V = std::vector<T>;
+    Six r{}, sw{};
+    bool opsOk = true;
+    withStyle(style, [&](auto S) {
+      constexpr FC::CmpStyle cs = CS[decltype(S)::value];
+      if (ea.dflt) {
+        r = sixDefault<V, cs>(a, b); sw = sixDefault<V, cs>(b, a);
+        Dune::FloatCmpOps<V, cs> ops;
+        opsOk = (Six{ops.eq(a, b), ops.ne(a, b), ops.lt(a, b), ops.gt(a, b), ops.le(a, b), ops.ge(a, b)} == r) && ops.epsilon() == eps;
+      } else {
+        r = sixOf<V, cs>(a, b, eps); sw = sixOf<V, cs>(b, a, eps);
+        Dune::FloatCmpOps<V, cs> ops(eps);
+        opsOk = (Six{ops.eq(a, b), ops.ne(a, b), ops.lt(a, b), ops.gt(a, b), ops.le(a, b), ops.ge(a, b)} == r) && ops.epsilon() == eps;
+      }
+      return 0;
+    });
+    res.impl = r.str();
+    bool lexlt = std::lexicographical_compare(A.begin(), A.end(), B.begin(), B.end());
+    bool lexgt = std::lexicographical_compare(B.begin(), B.end(), A.begin(), A.end());
+    std::string l = lawCheck(r, sw);
+    if (eqd >= 0 && r.eq != (eqd == 1)) res.oracle = "FAIL vector eq is not the conjunction over the components (beyond rounding)";
+    else if (!l.empty()) res.oracle = "FAIL " + l;
+    else if (r.lt != (!r.eq && lexlt) || r.gt != (!r.eq && lexgt)) res.oracle = "FAIL lt/gt are not `lexicographic order and not equal`";
+    else if (!opsOk) res.oracle = "FAIL FloatCmpOps<std::vector> differs from the free functions";
+    return res;
+  }
+  if (kind == "fv") {
+    size_t n = a.size();
+    if (n != b.size() || n < 1 || n > 4) { res.impl = "bad-op"; res.oracle = "FAIL malformed line"; return res; }
+    bool eq = false, ne = false, eqsw = false, opsOk = true;
+    withStyle(style, [&](auto S) {
+      constexpr int st = decltype(S)::value;
+      switch (n) {
+        case 1: fvEqF<T, 1, st>(a, b, ea.dflt, eps, eq, ne, eqsw, opsOk); break;
+        case 2: fvEqF<T, 2, st>(a, b, ea.dflt, eps, eq, ne, eqsw, opsOk); break;
+        case 3: fvEqF<T, 3, st>(a, b, ea.dflt, eps, eq, ne, eqsw, opsOk); break;
+        default: fvEqF<T, 4, st>(a, b, ea.dflt, eps, eq, ne, eqsw, opsOk); break;
+      }
+      return 0;
+    });
+    res.impl = "eq=" + bs(eq) + " ne=" + bs(ne);
+    if (eqd >= 0 && eq != (eqd == 1)) res.oracle = "FAIL vector eq is not the conjunction over the components (beyond rounding)";
+    else if (ne != !eq) res.oracle = "FAIL ne is not the negation of eq";
+    else if (eqsw != eq) res.oracle = "FAIL eq is not symmetric";
+    else if (!opsOk) res.oracle = "FAIL FloatCmpOps<FieldVector> differs from the free functions";
+    return res;
+  }
+  res.impl = "bad-op";
+  res.oracle = "FAIL malformed line";
+  return res;
+}
+
+// round / trunc on an arbitrary value: documented behaviour decided up to rounding (see eqSlack)
+template <class T> std::string froundLaws(int style, int rstyle, const mpq_class& x, const mpq_class& eps, const mpz_class& r) {
+  const int p = std::numeric_limits<T>::digits;
+  if (abs(x) + 2 >= pow2q(p)) return "";  // I <-> T conversions of the neighbouring integers may round: correspondence only
+  mpq_class R(r);
+  if (abs(R - x) >= 1) return "result is not within distance 1 of the argument";
+  mpz_class l = floorQ(x);
+  if (mpq_class(l) == x) return r == l ? "" : "integer argument not returned unchanged";
+  int snapped = eqSlack<T>(style, mpq_class(truncQ(x)), x, eps);
+  if (snapped != 0) return "";  // (possibly) equal to its integer part within epsilon
+  mpq_class pp = x - mpq_class(l), qq = mpq_class(l + 1) - x;
+  mpq_class absErr = pow2q(1 - p);  // the two distances (both below 1) are computed in T
+  int tie = eqSlack<T>(style, pp, qq, eps, absErr);
+  if (tie < 0) return "";
+  if (tie == 0 && abs(pp - qq) <= 4 * absErr) return "";
+  int dir = rstyle;
+  if (rstyle == 0) dir = x > 0 ? 2 : 3;
+  if (rstyle == 1) dir = x > 0 ? 3 : 2;
+  mpz_class expect = tie ? (dir == 2 ? l : mpz_class(l + 1)) : (pp < qq ? l : mpz_class(l + 1));
+  if (r != expect) return tie ? "tie within epsilon not resolved in the documented direction" : "result is not the nearest integer";
+  return "";
+}
+template <class T> std::string ftruncLaws(int style, int rstyle, bool uns, const mpq_class& x, const mpq_class& eps, const mpz_class& r) {
+  const int p = std::numeric_limits<T>::digits;
+  if (abs(x) + 2 >= pow2q(p)) return "";
+  mpz_class l = floorQ(x);
+  if (uns) {
+    int z = eqSlack<T>(style, x, 0, eps);
+    if (z == 1) return r == 0 ? "" : "unsigned target: argument equal to 0 within epsilon did not give 0";
+    if (z < 0) return "";
+  }
+  if (r != l && r != l + 1) return "result is neither floor nor floor+1 of the argument";
+  int eqL = eqSlack<T>(style, mpq_class(l), x, eps), eqU = eqSlack<T>(style, mpq_class(l + 1), x, eps);
+  int dir = rstyle;
+  if (rstyle == 0) dir = x > 0 ? 2 : 3;
+  if (rstyle == 1) dir = x > 0 ? 3 : 2;
+  if (dir == 2) {
+    if (r == l + 1 && eqU == 0) return "downward: result above the argument without being equal within epsilon";
+    if (r == l && eqU == 1) return "downward: argument equal to the next integer within epsilon, but not snapped to it";
+  } else {
+    if (r == l && eqL == 0) return "upward: result below the argument without being equal within epsilon";
+    if (r == l + 1 && mpq_class(l) == x && eqU == 0) return "upward: integer argument moved away";
+    if (r == l + 1 && eqL == 1 && eqU == 0) return "upward: argument equal to the integer below within epsilon, but not snapped to it";
+  }
+  return "";
+}
+
+template <class T, class I> Result execFRT(bool isRound, int style, int rstyle, const Dy& dv_, const EpsArg& ea) {
+  Result res;
+  if (!representable<T>(dv_) || (!ea.dflt && (!representable<T>(ea.d) || ea.d.m < 0)))
+    return Result{"bad-op", "FAIL malformed line: operand is not a (non-negative, for epsilon) value of the type"};
+  constexpr bool uns = !std::numeric_limits<I>::is_signed;
+  mpq_class X = toQ(dv_);
+  mpz_class tr = truncQ(X), hi = maxOfI<I>();
+  // I(val), lower-1 and upper+1 stay inside I; unsigned targets: trunc needs val >= 0, round val > -1
+  bool inRange = uns ? ((isRound ? X > -1 : X >= 0) && tr <= hi - 2) : (-(hi - 2) <= tr && tr <= hi - 2);
+  if (!inRange) return Result{"skip", "ok trivial"};
+  T val = toT<T>(dv_);
+  T eps = ea.dflt ? docDefaultEps<T>(style) : toT<T>(ea.d);
+  mpq_class E = qOf<T>(eps);
+  std::string ovl;
+  I r = callRTdyn<T, I>(isRound, style, rstyle, ea.dflt, val, eps, ovl);
+  res.impl = std::to_string(r);
+  mpz_class R = resultZ<I>(r, X);
+  std::string l = isRound ? froundLaws<T>(style, rstyle, X, E, R) : ftruncLaws<T>(style, rstyle, uns, X, E, R);
+  if (!l.empty()) res.oracle = "FAIL " + l;
+  else if (!ovl.empty()) res.oracle = "FAIL " + ovl;
+  else if (R < 0 && uns) res.oracle = "ok trivial";
+  stat(std::string(isRound ? "fround_" : "ftrunc_") + RSTYLES[rstyle]);
+  if (ea.dflt) stat("frt_default_eps");
+  if (abs(X) + 2 >= pow2q(std::numeric_limits<T>::digits)) stat("frt_beyond_exact_integers");
   return res;
 }
 
 // ------------------------------------------------------------------------------------------------
 // minifloat
 // ------------------------------------------------------------------------------------------------
-static Result execMf(int style, unsigned ca, unsigned cb, unsigned ce) {
+// epsilon operand of the minifloat ops: a finite non-negative code, or `def` (argument omitted)
+struct MfEps { bool ok = false, dflt = false, skip = false; unsigned code = 0; };
+static bool parseU(const std::string& s, unsigned& u);
+static MfEps parseMfEps(const std::string& s) {
+  MfEps e;
+  if (s == "def") { e.ok = e.dflt = true; return e; }
+  if (!parseU(s, e.code)) return e;
+  e.ok = true;
+  e.skip = !(mf::finiteCode(e.code) && e.code < 128);
+  return e;
+}
+static double mfDocDefaultEps(int style) { return style == 2 ? 0.125 : 1.0; }  // max(2^-3, MF8(1e-6) = 0)  /  2^-3 * 8
+
+// the documented definition evaluated in the arithmetic of the format (every operation rounded once)
+static bool mfEqDoc(int style, double a, double b, double eps) {
+  double d = mf::rnd(std::fabs(a - b));
+  double aa = std::fabs(a), ab = std::fabs(b);
+  double tol = style == 2 ? eps : mf::rnd(eps * (style == 0 ? std::max(aa, ab) : std::min(aa, ab)));
+  return d <= tol;
+}
+static Six mfSixDoc(int style, double a, double b, double eps) {
+  bool e = mfEqDoc(style, a, b, eps);
+  return Six{e, !e, !e && a < b, !e && a > b, e || a < b, e || a > b};
+}
+
+template <FC::CmpStyle cs> Six mfSix(bool dflt, mf::MF8 a, mf::MF8 b, mf::MF8 eps) {
+  using mf::MF8;
+  if (dflt) return sixDefault<MF8, cs>(a, b);
+  return sixOf<MF8, cs>(a, b, eps);
+}
+
+static Result execMf(int style, unsigned ca, unsigned cb, const MfEps& me) {
   Result res;
   using mf::MF8;
-  MF8 a = mf::decode(ca), b = mf::decode(cb), eps = mf::decode(ce);
+  MF8 a = mf::decode(ca), b = mf::decode(cb), eps = me.dflt ? MF8(mfDocDefaultEps(style), MF8::Raw{}) : mf::decode(me.code);
   Six r{}, sw{};
+  bool defOk = true;
   withStyle(style, [&](auto S) {
     constexpr FC::CmpStyle cs = CS[decltype(S)::value];
-    r = sixOf<MF8, cs>(a, b, eps);
-    sw = sixOf<MF8, cs>(b, a, eps);
+    r = mfSix<cs>(me.dflt, a, b, eps);
+    sw = mfSix<cs>(me.dflt, b, a, eps);
+    if (me.dflt) defOk = FC::DefaultEpsilon<MF8, cs>::value() == eps;
     return 0;
   });
   res.impl = r.str();
   std::string l = lawCheck(r, sw);
-  if (!l.empty()) res.oracle = "FAIL " + l;
+  Six doc = mfSixDoc(style, a.v, b.v, eps.v);
+  if (!defOk) res.oracle = "FAIL default epsilon of the minifloat type differs from the documented formula";
+  else if (!(r == doc)) res.oracle = "FAIL differs from the documented definition evaluated in the format: expected " + doc.str();
+  else if (!l.empty()) res.oracle = "FAIL " + l;
   return res;
 }
 static int mfFiniteCode(long i);
 // one line = one (style, a, eps) against every finite b: 240 results, two hex digits each (eq ne lt gt le ge as bits 5..0)
-static Result execMfRow(int style, unsigned ca, unsigned ce) {
+static Result execMfRow(int style, unsigned ca, const MfEps& me) {
   Result res;
   using mf::MF8;
-  MF8 a = mf::decode(ca), eps = mf::decode(ce);
+  MF8 a = mf::decode(ca), eps = me.dflt ? MF8(mfDocDefaultEps(style), MF8::Raw{}) : mf::decode(me.code);
   static const char* HEX = "0123456789abcdef";
   std::string out;
   withStyle(style, [&](auto S) {
@@ -445,11 +891,14 @@ static Result execMfRow(int style, unsigned ca, unsigned ce) {
     for (long i = 0; i < 240; ++i) {
       unsigned cb = (unsigned)mfFiniteCode(i);
       MF8 b = mf::decode(cb);
-      Six r = sixOf<MF8, cs>(a, b, eps), sw = sixOf<MF8, cs>(b, a, eps);
+      Six r = mfSix<cs>(me.dflt, a, b, eps), sw = mfSix<cs>(me.dflt, b, a, eps);
       unsigned byte = (r.eq << 5) | (r.ne << 4) | (r.lt << 3) | (r.gt << 2) | (r.le << 1) | (unsigned)r.ge;
       out.push_back(HEX[byte >> 4]);
       out.push_back(HEX[byte & 15]);
       std::string l = lawCheck(r, sw);
+      Six doc = mfSixDoc(style, a.v, b.v, eps.v);
+      if (!(r == doc) && res.oracle == "ok")
+        res.oracle = "FAIL b=" + std::to_string(cb) + ": differs from the documented definition evaluated in the format: expected " + doc.str();
       if (!l.empty() && res.oracle == "ok") res.oracle = "FAIL b=" + std::to_string(cb) + ": " + l + " (" + r.str() + ")";
     }
     return 0;
@@ -457,24 +906,57 @@ static Result execMfRow(int style, unsigned ca, unsigned ce) {
   res.impl = out;
   return res;
 }
-static Result execMfr(int style, int rstyle, unsigned cv, unsigned ce) {
+
+// documented behaviour of round / trunc evaluated in the arithmetic of the format (|v| < 16: below that every integer
+// neighbour converts exactly; from 16 on every value of the format is an integer)
+static std::string mfRoundDoc(int style, int rstyle, double v, double eps, int r) {
+  if (std::fabs(v) >= 16) return r == v ? "" : "integer argument not returned unchanged";
+  if (!(std::fabs(r - v) < 1)) return "result is not within distance 1 of the argument";
+  double l = std::floor(v);
+  if (l == v) return r == v ? "" : "integer argument not returned unchanged";
+  if (mfEqDoc(style, std::trunc(v), v, eps)) return "";  // equal to its integer part within epsilon
+  double pp = mf::rnd(v - l), qq = mf::rnd((l + 1) - v);
+  bool tie = mfEqDoc(style, pp, qq, eps);
+  int dir = rstyle;
+  if (rstyle == 0) dir = v > 0 ? 2 : 3;
+  if (rstyle == 1) dir = v > 0 ? 3 : 2;
+  double expect = tie ? (dir == 2 ? l : l + 1) : (pp < qq ? l : l + 1);
+  if (r != expect) return tie ? "tie within epsilon not resolved in the documented direction" : "result is not the nearest integer";
+  return "";
+}
+static std::string mfTruncDoc(int style, int rstyle, double v, double eps, int t) {
+  double l = std::floor(v);
+  if (!(t == l || t == l + 1)) return "result is neither floor nor floor+1 of the argument";
+  if (std::fabs(v) >= 16) return "";  // l+1 is not a value of the format: only the correspondence is checked
+  bool eqL = mfEqDoc(style, l, v, eps), eqU = mfEqDoc(style, l + 1, v, eps);
+  int dir = rstyle;
+  if (rstyle == 0) dir = v > 0 ? 2 : 3;
+  if (rstyle == 1) dir = v > 0 ? 3 : 2;
+  if (dir == 2) {
+    if (t == l + 1 && !eqU) return "downward: result above the argument without being equal within epsilon";
+    if (t == l && eqU) return "downward: argument equal to the next integer within epsilon, but not snapped to it";
+  } else {
+    if (t == l && !eqL) return "upward: result below the argument without being equal within epsilon";
+    if (t == l + 1 && l == v && !eqU) return "upward: integer argument moved away";
+    if (t == l + 1 && eqL && !eqU) return "upward: argument equal to the integer below within epsilon, but not snapped to it";
+  }
+  return "";
+}
+static Result execMfr(int style, int rstyle, unsigned cv, const MfEps& me) {
   Result res;
   using mf::MF8;
-  MF8 v = mf::decode(cv), eps = mf::decode(ce);
-  int r = 0, t = 0;
-  withStyle(style, [&](auto S) {
-    constexpr FC::CmpStyle cs = CS[decltype(S)::value];
-    return withRStyle(rstyle, [&](auto R) {
-      constexpr FC::RoundingStyle rs = RS[decltype(R)::value];
-      r = FC::round<int, MF8, cs, rs>(v, eps);
-      t = FC::trunc<int, MF8, cs, rs>(v, eps);
-      return 0;
-    });
-  });
+  MF8 v = mf::decode(cv), eps = me.dflt ? MF8(mfDocDefaultEps(style), MF8::Raw{}) : mf::decode(me.code);
+  std::string ovl;
+  int r = callRTdyn<MF8, int>(true, style, rstyle, me.dflt, v, eps, ovl);
+  int t = callRTdyn<MF8, int>(false, style, rstyle, me.dflt, v, eps, ovl);
   res.impl = "round=" + std::to_string(r) + " trunc=" + std::to_string(t);
-  double fl = std::floor(v.v);
-  if (!(std::fabs(r - v.v) < 1)) res.oracle = "FAIL round result not within distance 1";
-  else if (!(t == fl || t == fl + 1)) res.oracle = "FAIL trunc result is neither floor nor floor+1";
+  std::string l = mfRoundDoc(style, rstyle, v.v, eps.v, r);
+  if (l.empty()) {
+    l = mfTruncDoc(style, rstyle, v.v, eps.v, t);
+    if (!l.empty()) l = "trunc: " + l;
+  } else l = "round: " + l;
+  if (!l.empty()) res.oracle = "FAIL " + l;
+  else if (!ovl.empty()) res.oracle = "FAIL " + ovl;
   return res;
 }
 
@@ -483,8 +965,24 @@ template <class T> Result execDefEps(int style) {
   T v = 0;
   withStyle(style, [&](auto S) { v = FC::DefaultEpsilon<T, CS[decltype(S)::value]>::value(); return 0; });
   res.impl = dyStr(v);
-  T expect = style == 2 ? std::max<T>(std::numeric_limits<T>::epsilon(), (T)1e-6) : std::numeric_limits<T>::epsilon() * 8;
+  T expect = docDefaultEps<T>(style);
   if (!(v == expect) || !(v >= 0)) res.oracle = "FAIL default epsilon differs from the documented value";
+  // the vector types take the default epsilon of their element type
+  bool vecOk = true;
+  withStyle(style, [&](auto S) {
+    constexpr FC::CmpStyle cs = CS[decltype(S)::value];
+    vecOk = FC::DefaultEpsilon<std::vector<T>, cs>::value() == v && FC::DefaultEpsilon<Dune::FieldVector<T, 3>, cs>::value() == v;
+    return 0;
+  });
+  if (res.oracle == "ok" && !vecOk) res.oracle = "FAIL default epsilon of std::vector / FieldVector differs from the one of the element type";
+  return res;
+}
+static Result execDefEpsMf(int style) {
+  Result res;
+  mf::MF8 v;
+  withStyle(style, [&](auto S) { v = FC::DefaultEpsilon<mf::MF8, CS[decltype(S)::value]>::value(); return 0; });
+  res.impl = dyStr(v.v);
+  if (!(v.v == mfDocDefaultEps(style))) res.oracle = "FAIL default epsilon of the minifloat type differs from the documented formula";
   return res;
 }
 
@@ -592,16 +1090,24 @@ template <class I> Result execBinom(const mpz_class& n, const mpz_class& k) {
 }
 
 static Result execStatic() {
-  // only the (n,n) overload, which does not call binomial(): a constant-evaluated call of the general overload would
-  // turn a defect of binomial() into a compile error of this harness instead of a replayable failing input
+  // compile-time overloads.  Signed arguments only for the (n,n) overload, which does not call binomial(): a
+  // constant-evaluated signed overflow would turn a defect of binomial() into a compile error of this harness instead
+  // of a replayable failing input; unsigned arithmetic wraps, so the general overloads are exercised with unsigned types.
   using std::integral_constant;
   Result res;
   auto b77 = Dune::binomial(integral_constant<int, 7>{}, integral_constant<int, 7>{});
   auto bm = Dune::binomial(integral_constant<int, -1>{}, integral_constant<int, -1>{});
+  auto f5 = Dune::factorial(integral_constant<unsigned, 5>{});
+  auto f20 = Dune::factorial(integral_constant<unsigned long, 20>{});
+  auto b62 = Dune::binomial(integral_constant<unsigned, 6>{}, integral_constant<unsigned, 2>{});
+  auto b4020 = Dune::binomial(integral_constant<unsigned long, 40>{}, integral_constant<unsigned long, 20>{});
+  auto b59 = Dune::binomial(integral_constant<unsigned, 5>{}, integral_constant<unsigned, 9>{});
   std::ostringstream os;
-  os << decltype(b77)::value << " " << decltype(bm)::value;
+  os << decltype(b77)::value << " " << decltype(bm)::value << " " << decltype(f5)::value << " " << decltype(f20)::value << " "
+     << decltype(b62)::value << " " << decltype(b4020)::value << " " << decltype(b59)::value;
   res.impl = os.str();
-  if (res.impl != "1 0") res.oracle = "FAIL integral_constant overload binomial(n,n) gives " + res.impl;
+  if (res.impl != "1 0 120 2432902008176640000 15 137846528820 0") res.oracle = "FAIL integral_constant overloads of factorial / binomial give " + res.impl;
+  else if (Dune::Factorial<5>::factorial != 120 || Dune::Factorial<0>::factorial != 1) res.oracle = "FAIL Factorial<m>::factorial wrong";
   return res;
 }
 
@@ -718,8 +1224,8 @@ Result exec(const std::string& line) {
     if (!parseFT(w[1], ft) || !isIType(w[2]) || st < 0 || rs < 0 || !v.ok || !e.ok) return bad();
     if (!(okVal(ft, v) && okEps(ft, e))) return skip();
     bool uns = w[2][0] == 'u';
-    if (uns && v.m < 0) return skip();
     bool isRound = op == "round";
+    if (uns && v.m < 0 && !(isRound && toQ(v) > -1)) return skip();  // unsigned targets: trunc needs val >= 0, round val > -1
     stat("rt_" + w[2]);
     return withIType(w[2], [&](auto I0) {
       using I = decltype(I0);
@@ -735,29 +1241,76 @@ Result exec(const std::string& line) {
   }
   if (op == "mf" && w.size() == 5) {
     int st = styleIdx(w[1]);
-    unsigned a, b, e;
-    if (st < 0 || !parseU(w[2], a) || !parseU(w[3], b) || !parseU(w[4], e)) return bad();
-    if (!(mf::finiteCode(a) && mf::finiteCode(b) && mf::finiteCode(e)) || e >= 128) return skip();
+    unsigned a, b;
+    MfEps e = parseMfEps(w[4]);
+    if (st < 0 || !parseU(w[2], a) || !parseU(w[3], b) || !e.ok) return bad();
+    if (!(mf::finiteCode(a) && mf::finiteCode(b)) || e.skip) return skip();
+    if (e.dflt) stat("mf_default_eps");
     return execMf(st, a, b, e);
   }
   if (op == "mfrow" && w.size() == 4) {
     int st = styleIdx(w[1]);
-    unsigned a, e;
-    if (st < 0 || !parseU(w[2], a) || !parseU(w[3], e)) return bad();
-    if (!(mf::finiteCode(a) && mf::finiteCode(e)) || e >= 128) return skip();
+    unsigned a;
+    MfEps e = parseMfEps(w[3]);
+    if (st < 0 || !parseU(w[2], a) || !e.ok) return bad();
+    if (!mf::finiteCode(a) || e.skip) return skip();
+    if (e.dflt) stat("mf_default_eps");
     return execMfRow(st, a, e);
   }
   if (op == "mfr" && w.size() == 5) {
     int st = styleIdx(w[1]), rs = rstyleIdx(w[2]);
-    unsigned v, e;
-    if (st < 0 || rs < 0 || !parseU(w[3], v) || !parseU(w[4], e)) return bad();
-    if (!(mf::finiteCode(v) && mf::finiteCode(e)) || e >= 128) return skip();
+    unsigned v;
+    MfEps e = parseMfEps(w[4]);
+    if (st < 0 || rs < 0 || !parseU(w[3], v) || !e.ok) return bad();
+    if (!mf::finiteCode(v) || e.skip) return skip();
+    if (e.dflt) stat("mf_default_eps");
     return execMfr(st, rs, v, e);
+  }
+  if ((op == "fcmp") && w.size() == 6) {
+    int st = styleIdx(w[2]);
+    Dy a = parseDy(w[3]), b = parseDy(w[4]);
+    EpsArg e = parseEps(w[5]);
+    if (st < 0 || !a.ok || !b.ok || !e.ok) return bad();
+    stat("ftype_" + w[1]);
+    if (w[1] == "f32") return execFCmp<float>(st, a, b, e);
+    if (w[1] == "f64") return execFCmp<double>(st, a, b, e);
+    if (w[1] == "f80") return execFCmp<long double>(st, a, b, e);
+    return bad();
+  }
+  if (op == "fcmpv" && w.size() == 7) {
+    int st = styleIdx(w[3]);
+    std::vector<Dy> a, b;
+    EpsArg e = parseEps(w[6]);
+    if (st < 0 || !parseDyList(w[4], a) || !parseDyList(w[5], b) || !e.ok) return bad();
+    if (w[1] == "f32") return execFCmpV<float>(w[2], st, a, b, e);
+    if (w[1] == "f64") return execFCmpV<double>(w[2], st, a, b, e);
+    if (w[1] == "f80") return execFCmpV<long double>(w[2], st, a, b, e);
+    return bad();
+  }
+  if ((op == "fround" || op == "ftrunc") && w.size() == 7) {
+    int st = styleIdx(w[3]), rs = rstyleIdx(w[4]);
+    Dy v = parseDy(w[5]);
+    EpsArg e = parseEps(w[6]);
+    if (!isIType(w[2]) || st < 0 || rs < 0 || !v.ok || !e.ok) return bad();
+    if (w[1] != "f32" && w[1] != "f64" && w[1] != "f80") return bad();
+    bool isRound = op == "fround";
+    stat("frt_" + w[2]);
+    stat("ftype_" + w[1]);
+    return withIType(w[2], [&](auto I0) {
+      using I = decltype(I0);
+      if (w[1] == "f32") return execFRT<float, I>(isRound, st, rs, v, e);
+      if (w[1] == "f64") return execFRT<double, I>(isRound, st, rs, v, e);
+      return execFRT<long double, I>(isRound, st, rs, v, e);
+    });
   }
   if (op == "defeps" && w.size() == 3) {
     int st = styleIdx(w[2]);
-    if (!parseFT(w[1], ft) || st < 0) return bad();
-    return w[1] == "f32" ? execDefEps<float>(st) : execDefEps<double>(st);
+    if (st < 0) return bad();
+    if (w[1] == "f32") return execDefEps<float>(st);
+    if (w[1] == "f64") return execDefEps<double>(st);
+    if (w[1] == "f80") return execDefEps<long double>(st);
+    if (w[1] == "mf8") return execDefEpsMf(st);
+    return bad();
   }
   if (op == "pow" && w.size() == 5) {
     mpz_class m, p;
@@ -1028,11 +1581,15 @@ static std::string genRT(Rng& r) {
     default: f = GD{(long)r.range(0, (1l << j) - 1), -j}; break;
   }
   GD val = gAdd(GD{n, 0}, f);
-  if (it[0] == 'u' && val.m < 0) val.m = -val.m;
+  bool isRoundOp = r.coin();
+  if (it[0] == 'u' && val.m < 0) {
+    if (isRoundOp && r.coin(1, 3)) val = GD{-f.m, f.e};   // round on unsigned targets: arguments in (-1,0]
+    else val.m = -val.m;
+  }
   FT ft; parseFT(f32 ? "f32" : "f64", ft);
   if (!okVal(ft, gDy(val)) || !okEps(ft, gDy(eps))) { val = GD{n < 0 && it[0] == 'u' ? -n : n, 0}; val = gAdd(val, half); eps = GD{1, -3}; }
   std::ostringstream os;
-  os << (r.coin() ? "round " : "trunc ") << (f32 ? "f32 " : "f64 ") << it << " " << STYLES[st] << " " << RSTYLES[rs] << " " << gStr(val) << " "
+  os << (isRoundOp ? "round " : "trunc ") << (f32 ? "f32 " : "f64 ") << it << " " << STYLES[st] << " " << RSTYLES[rs] << " " << gStr(val) << " "
      << gStr(eps);
   return os.str();
 }
@@ -1062,6 +1619,156 @@ static std::string genCmp(Rng& r, bool vec) {
   if (stdv && r.coin(1, 6)) { if (r.coin() && !A.empty()) A.pop_back(); else B.push_back("1:0"); }
   os << "cmpv " << (f32 ? "f32 " : "f64 ") << (stdv ? "std " : "fv ") << STYLES[st] << " " << listStr(A) << " " << listStr(B) << " " << gStr(eps);
   return os.str();
+}
+
+// ---- arbitrary values of float / double / long double -------------------------------------------------
+template <class T> T nudge(T x, long k) {
+  T to = k > 0 ? std::numeric_limits<T>::infinity() : -std::numeric_limits<T>::infinity();
+  for (long i = 0; i < std::labs(k); ++i) x = std::nextafter(x, to);
+  return x;
+}
+template <class T> T fixFinite(T x) {
+  if (std::isnan(x)) return T(1);
+  if (std::isinf(x)) return x > 0 ? std::numeric_limits<T>::max() : std::numeric_limits<T>::lowest();
+  return x;
+}
+// a finite value: mode 0 moderate magnitude (products and differences stay normal), 1 anywhere in the format, 2 special
+template <class T> T genVal(Rng& r, int mode) {
+  const int p = std::numeric_limits<T>::digits;
+  if (mode == 2) {
+    switch (r.below(8)) {
+      case 0: return T(0);
+      case 1: return std::numeric_limits<T>::denorm_min() * (T)(long)r.range(1, 3);
+      case 2: return std::numeric_limits<T>::max();
+      case 3: return std::numeric_limits<T>::min();
+      case 4: return T(1);
+      case 5: return std::ldexp(T(1), (int)r.range(-30, 30));
+      case 6: return std::numeric_limits<T>::epsilon();
+      default: return (T)(long)r.range(-4, 4);
+    }
+  }
+  // random significand with few or many bits
+  unsigned long m = r.next();
+  if (p < 64) m >>= (64 - p);
+  if (r.coin(1, 3)) m &= ~((1ul << r.below((uint64_t)std::min(p - 1, 40))) - 1);  // trailing zeros
+  if (m == 0) m = 1;
+  int emin = std::numeric_limits<T>::min_exponent - p, emax = std::numeric_limits<T>::max_exponent - 64;
+  int e = mode == 0 ? (int)r.range(-40 - p, 40 - p) : (int)r.range(emin, emax);
+  T x = fixFinite(std::ldexp((T)m, e));
+  return r.coin() ? -x : x;
+}
+template <class T> T genEpsT(Rng& r, int style, bool& dflt) {
+  dflt = false;
+  switch (r.below(10)) {
+    case 0: case 1: dflt = true; return docDefaultEps<T>(style);
+    case 2: return T(0);
+    case 3: return docDefaultEps<T>(style) * (T)(long)r.range(1, 4);
+    case 4: return std::ldexp(T(1), -(int)r.range(1, std::numeric_limits<T>::digits + 4));
+    case 5: return (T)(long)r.range(1, 5) / T(2);                       // epsilon >= 1/2
+    case 6: return (T)1e-3;
+    case 7: return (T)0.1;
+    default: return std::fabs(genVal<T>(r, 0)) * std::ldexp(T(1), -(int)r.range(0, 60));
+  }
+}
+template <class T> std::string epsTok(T eps, bool dflt) { return dflt ? std::string("def") : dyStr<T>(fixFinite(eps)); }
+
+// a partner of `a` placed on / next to the tolerance threshold as the code computes it
+template <class T> T genPartner(Rng& r, int style, T a, T eps) {
+  switch (r.below(10)) {
+    case 0: return a;
+    case 1: case 2: case 3: case 4: {
+      T t = style == 2 ? eps : eps * std::fabs(a);
+      T b = r.coin() ? a + t : a - t;
+      if (style == 1 && r.coin()) b = r.coin() ? a / (T(1) + eps) : a / (T(1) - eps);  // threshold relative to the smaller operand
+      return nudge(fixFinite(b), r.range(-3, 3));
+    }
+    case 5: return nudge(a, r.range(-4, 4));
+    case 6: return -a;
+    case 7: return T(0);
+    case 8: return genVal<T>(r, 2);
+    default: return genVal<T>(r, r.coin(1, 4) ? 1 : 0);
+  }
+}
+template <class T> std::string genFCmpT(Rng& r, bool vec) {
+  int st = (int)r.below(3);
+  bool dflt;
+  T eps = genEpsT<T>(r, st, dflt);
+  std::ostringstream os;
+  if (!vec) {
+    T a = genVal<T>(r, r.coin(1, 8) ? (r.coin() ? 1 : 2) : 0), b = genPartner<T>(r, st, a, eps);
+    if (r.coin()) std::swap(a, b);
+    os << "fcmp " << FTr<T>::name << " " << STYLES[st] << " " << dyStr<T>(a) << " " << dyStr<T>(fixFinite(b)) << " " << epsTok(eps, dflt);
+    return os.str();
+  }
+  bool stdv = r.coin();
+  int n = stdv ? (int)r.range(0, 5) : (int)r.range(1, 4);
+  std::vector<std::string> A, B;
+  int differ = r.coin(1, 3) ? -1 : (int)r.below(n ? n : 1);
+  for (int i = 0; i < n; ++i) {
+    T a = genVal<T>(r, 0), b = fixFinite(genPartner<T>(r, st, a, eps));
+    if (i != differ && r.coin(2, 3)) b = a;
+    A.push_back(dyStr<T>(a));
+    B.push_back(dyStr<T>(b));
+  }
+  if (stdv && r.coin(1, 6)) { if (r.coin() && !A.empty()) A.pop_back(); else B.push_back("1:0"); }
+  os << "fcmpv " << FTr<T>::name << " " << (stdv ? "std " : "fv ") << STYLES[st] << " " << listStr(A) << " " << listStr(B) << " " << epsTok(eps, dflt);
+  return os.str();
+}
+template <class T> std::string genFRTT(Rng& r) {
+  static const std::vector<std::string> IT = {"i32", "i64", "u32", "u64", "i32", "i64"};
+  const int p = std::numeric_limits<T>::digits;
+  std::string it = r.pick(IT);
+  bool uns = it[0] == 'u', w32 = it[1] == '3';
+  int st = (int)r.below(3), rs = (int)r.below(4);
+  bool isRound = r.coin();
+  bool dflt;
+  T eps = genEpsT<T>(r, st, dflt);
+  if (!dflt && eps > T(4)) eps = T(2);
+  // integer part
+  T n;
+  switch (r.below(8)) {
+    case 0: n = T(0); break;
+    case 1: {  // where the integers stop being values of T, or the end of the target type
+      int top = std::min(p, w32 ? 31 : 63) - (int)r.below(3);
+      n = std::ldexp(T(1), top) - (T)(long)r.range(0, 6);
+      break;
+    }
+    case 2: n = std::ldexp(T(1), (int)r.range(3, std::min(p, w32 ? 30 : 62))) + (T)(long)r.range(-2, 2); break;
+    default: n = (T)(long)r.range(0, 40); break;
+  }
+  if (!uns && r.coin()) n = -n;
+  // fractional part, computed in T
+  T f;
+  T tiny = std::ldexp(T(1), -(int)r.range(1, p + 2));
+  switch (r.below(10)) {
+    case 0: f = T(0); break;
+    case 1: f = T(0.5); break;
+    case 2: f = T(0.5) + (r.coin() ? tiny : -tiny); break;
+    case 3: f = tiny; break;
+    case 4: f = T(1) - tiny; break;
+    case 5: case 6: {  // tie boundary: |2f-1| ~ eps * scale
+      T h = eps / T(2);
+      if (st != 2) h = h * T(0.5);
+      f = r.coin() ? T(0.5) + h : T(0.5) - h;
+      break;
+    }
+    case 7: f = st == 2 ? eps : eps * std::fabs(n); break;   // distance ~eps from the integer below
+    case 8: f = T(1) - (st == 2 ? eps : eps * std::fabs(n)); break;
+    default: f = (T)(long)r.range(0, 1023) / T(1024); break;
+  }
+  if (!(f >= T(0) && f < T(1))) f = T(0.5);
+  T val = nudge(fixFinite(n + f), r.coin(1, 2) ? r.range(-3, 3) : 0);
+  if (uns && val < T(0)) val = (isRound && r.coin()) ? -f : -val;   // round on unsigned targets is exercised on (-1,0) as well
+  std::ostringstream os;
+  os << (isRound ? "fround " : "ftrunc ") << FTr<T>::name << " " << it << " " << STYLES[st] << " " << RSTYLES[rs] << " " << dyStr<T>(fixFinite(val)) << " "
+     << epsTok(eps, dflt);
+  return os.str();
+}
+static std::string genF(Rng& r, int what) {  // what: 0 fcmp, 1 fcmpv, 2 frt
+  int t = (int)r.below(5);  // double twice as often as the others
+  if (what == 2) return t == 0 ? genFRTT<float>(r) : t == 1 ? genFRTT<long double>(r) : genFRTT<double>(r);
+  bool vec = what == 1;
+  return t == 0 ? genFCmpT<float>(r, vec) : t == 1 ? genFCmpT<long double>(r, vec) : genFCmpT<double>(r, vec);
 }
 
 static std::string genLaws(Rng& r) {
@@ -1187,32 +1894,50 @@ std::string gen(Rng& r, long i, const Args& a) {
     const auto& v = intAll(a.tier);
     return v[(size_t)idx % v.size()];
   }
-  switch (r.below(20)) {
-    case 0: case 1: case 2: case 3: case 4: return genCmp(r, false);
-    case 5: case 6: return genCmp(r, true);
-    case 7: case 8: case 9: case 10: return genRT(r);
-    case 11: return genLaws(r);
-    case 12: case 13: {
-      char buf[64];
-      std::snprintf(buf, sizeof buf, "mf %s %d %d %d", STYLES[r.below(3)], mfFiniteCode((long)r.below(240)), mfFiniteCode((long)r.below(240)),
-                    (int)r.below(120));
-      return buf;
-    }
-    case 14: {
-      char buf[96];
-      std::snprintf(buf, sizeof buf, "mfr %s %s %d %d", STYLES[r.below(3)], RSTYLES[r.below(4)], mfFiniteCode((long)r.below(240)), (int)r.below(120));
-      return buf;
-    }
-    case 15: return genCls(r);
-    case 16: {
-      bool f32 = r.coin();
-      std::ostringstream os;
-      if (r.coin(1, 4)) { os << "sign " << (f32 ? "f32 " : "f64 ") << (r.coin(1, 3) ? std::string("nz") : gStr(GD{(long)r.range(-3, 3), (long)r.range(-90, 90)})); return os.str(); }
-      long mb = r.coin() ? 1 : (long)r.range(1, 15);
-      long p = (long)r.range(-12, 12);
-      os << "powf " << (f32 ? "f32 " : "f64 ") << gStr(GD{r.coin() ? mb : -mb, (long)r.range(-6, 6)}) << " " << p;
-      return os.str();
-    }
+  auto mfEpsTok = [&]() { return r.coin(1, 6) ? std::string("def") : std::to_string((int)r.below(120)); };
+  auto genMf = [&]() {
+    std::ostringstream os;
+    os << "mf " << STYLES[r.below(3)] << " " << mfFiniteCode((long)r.below(240)) << " " << mfFiniteCode((long)r.below(240)) << " " << mfEpsTok();
+    return os.str();
+  };
+  auto genMfr = [&]() {
+    std::ostringstream os;
+    // non-integers of the format lie below 16 (codes with exponent field <= 10): prefer them
+    long v = r.coin(3, 4) ? (long)(r.below(88) + (r.coin() ? 128 : 0)) : mfFiniteCode((long)r.below(240));
+    os << "mfr " << STYLES[r.below(3)] << " " << RSTYLES[r.below(4)] << " " << v << " " << mfEpsTok();
+    return os.str();
+  };
+  auto genMisc = [&]() {
+    bool f32 = r.coin();
+    std::ostringstream os;
+    if (r.coin(1, 4)) { os << "sign " << (f32 ? "f32 " : "f64 ") << (r.coin(1, 3) ? std::string("nz") : gStr(GD{(long)r.range(-3, 3), (long)r.range(-90, 90)})); return os.str(); }
+    long mb = r.coin() ? 1 : (long)r.range(1, 15);
+    long p = (long)r.range(-12, 12);
+    os << "powf " << (f32 ? "f32 " : "f64 ") << gStr(GD{r.coin() ? mb : -mb, (long)r.range(-6, 6)}) << " " << p;
+    return os.str();
+  };
+  // focused streams (used by the search after a broken correspondence / obligation, and by the thorough tier)
+  if (kind == "rt") {
+    switch (r.below(6)) { case 0: case 1: return genRT(r); case 2: return genMfr(); default: return genF(r, 2); }
+  }
+  if (kind == "cmp") {
+    switch (r.below(8)) { case 0: case 1: return genCmp(r, false); case 2: return genCmp(r, true); case 3: return genMf();
+                          case 4: return genF(r, 1); default: return genF(r, 0); }
+  }
+  if (kind == "int") return genInt(r);
+  if (kind == "cls") return r.coin(1, 4) ? genMisc() : genCls(r);
+  switch (r.below(24)) {
+    case 0: case 1: case 2: return genCmp(r, false);
+    case 3: return genCmp(r, true);
+    case 4: case 5: case 6: case 7: return genF(r, 0);
+    case 8: return genF(r, 1);
+    case 9: case 10: return genRT(r);
+    case 11: case 12: case 13: case 14: return genF(r, 2);
+    case 15: return genMf();
+    case 16: case 17: return genMfr();
+    case 18: return genCls(r);
+    case 19: return genMisc();
+    case 20: return genLaws(r);
     default: return genInt(r);
   }
 }
